@@ -346,6 +346,30 @@ def user_ns_map(rng, desc):
     return rng.choice(family)
 
 
+def gen_user_maps(rng, tier):
+    """user prefix maps for `clean_prefixes`: every map of up to 3 entries over keys {None, "", "d", "p1"} and
+    values {NS, OTHER, ""}, then the family of `user_ns_map` on random universes"""
+    import itertools
+
+    keys = [None, "", "d", "p1"]
+    vals = ["urn:a", "urn:b", ""]
+    for n in range(0, 4):
+        for ks in itertools.permutations(keys, n):
+            for vs in itertools.product(vals, repeat=n):
+                yield {"ns_map": [[k, v] for k, v in zip(ks, vs)]}
+    for _ in range(n_cases(tier, 100, 2000)):
+        desc, _ = D.qualified_attr_universe(rng)
+        yield {"ns_map": user_ns_map(rng, desc)}
+
+
+def impl_user_map(a):
+    from xsdata.utils import namespaces
+
+    d = {k: v for k, v in a["ns_map"]}
+    m = namespaces.clean_prefixes(d) if d else {}
+    return {"ok": [[k, v] for k, v in m.items()]}
+
+
 def gen_qualified_attrs(rng, tier):
     """objects with namespace-qualified attributes, rendered with a user prefix map"""
     for _ in range(n_cases(tier, 25, 300)):
@@ -726,6 +750,9 @@ CORRS = [
          describe="XmlParser x {native, lxml} x {bytes, str, path, file, lxml tree/element, ET tree/element} on documents with "
                   "random declaration layouts and lexical variation: all equal and equal to the model's parse of the infoset; "
                   "RecordParser event streams of both handlers equal"),
+    Corr("ns.clean", gen_user_maps, impl_user_map,
+         describe="clean_prefixes as XmlSerializer.write / TreeSerializer.render call it, on all user maps of up to 3 entries over "
+                  "the keys None, '', 'd', 'p1' (every order) and on the user-map family of the writers oracle, vs model serializerNsMap"),
     Corr("c08.union_record", lambda rng, tier: ({"toks": D.union_tokens(a["tree"]), **a} for a in gen_union_record(rng, tier)),
          impl_union_record,
          describe="a real UnionNode fed by the lxml handler's loop (live element.attrib views, element.clear() at every end) "
